@@ -249,6 +249,7 @@ retry_fetch_lv:
             // not visit the border, so not call cb
             value* vp = lv_ptr->get_value();
             auto* v_body = value::get_body(vp);
+            permutation perm_at_value(target_border->get_permutation().get_body());
             node_version64_body final_check = target_border->get_stable_version();
             if (final_check.get_vsplit() != v_at_fb.get_vsplit() ||
                 (final_check.get_deleted() && !final_check.get_root())) {
@@ -256,6 +257,21 @@ retry_fetch_lv:
             }
             if (final_check.get_vinsert_delete() != v_at_fetch_lv.get_vinsert_delete()) {
                 goto retry_fetch_lv; // NOLINT
+            }
+            {
+                // removes are not tracked by the version: they clear the slot and then
+                // shrink the permutation, so the slot must still be listed and the
+                // permutation unchanged around the value load.
+                bool listed{false};
+                for (std::size_t r = 0, n = perm_at_value.get_cnk(); r < n; ++r) {
+                    if (perm_at_value.get_index_of_rank(r) == lv_pos) { listed = true; }
+                }
+                node_version64_body v_chk = final_check;
+                if (!listed ||
+                    iscan_check_retry(target_border, v_chk, perm_at_value) != status::OK) {
+                    if (early_abort) { return status::WARN_CONCURRENT_OPERATIONS; }
+                    goto retry_fetch_lv; // NOLINT
+                }
             }
             out = v_body;
             ctx->stack(key_tup, root, target_border, cmp_to_end,
